@@ -9,7 +9,7 @@
 (*   SetAtomic   a rejected typed assignment leaves the container unchanged   *)
 (*   EqCongruent equal trees serialise identically; changing any single       *)
 (*               option or content makes two trees unequal                   *)
-EXTENDS Integers, Sequences, TLC, Dom
+EXTENDS Integers, Sequences, TLC, Json, Dom
 CONSTANT Scope          \* 1: quick (one change, fewer encodings)  2: full small scope
 VARIABLES t
 NoTables == [none |-> [enc |-> [x \in {} |-> <<>>], dec |-> [x \in {} |-> 0]]]
@@ -40,6 +40,8 @@ Init == \E p \in Pres, m \in Metas2, c1 \in ChangesSet, two \in (IF Scope = 1 TH
                changes |-> IF two THEN << c1, [NewChange EXCEPT !.files = << [NewFile EXCEPT !.meta = MetaOf(<< [k |-> <<97>>, v |-> JS(<<233>>)] >>, << OStr(K_fmt, V_json) >>)] >>] >> ELSE << c1 >>]
 Next == UNCHANGED t
 Spec == Init /\ [][Next]_t
+(* Direction A: every tree of this space is also built with the real object model *)
+Emit == PrintT(<<"BEH", ToJson(t)>>)
 S == DomSerialize(CMap, t)
 RoundTrip == S.status = "ok" =>
                LET p == DomParse(CMap, S.bytes) IN p.status = "ok" /\ p.t = Normalize(CMap, t)
